@@ -247,10 +247,10 @@ func runC12(r *lib.Run) {
 								ctx = "container-above-emptied-ordered-map"
 							}
 						}
-						r.Violate("empty-ancestor-remains", tg.kind+":"+ctx, "empty container remains at "+ap, w(map[string]interface{}{"ancestor": ap}))
+						r.Violate("empty-ancestor-remains", ctx, "empty container remains at "+ap, w(map[string]interface{}{"ancestor": ap}))
 					}
 					if after.Shape[ap] == "emptymap" || after.Shape[ap] == "emptyorderedmap" {
-						r.Violate("empty-ancestor-remains", tg.kind+":"+after.Shape[ap], "empty list remains at "+ap, w(map[string]interface{}{"ancestor": ap}))
+						r.Violate("empty-ancestor-remains", after.Shape[ap], "empty list remains at "+ap, w(map[string]interface{}{"ancestor": ap}))
 					}
 				}
 				// deleting twice changes nothing
